@@ -85,6 +85,7 @@ type (
 		data        string
 		sortByStr   string
 		sortByFloat float64
+		noWeight    bool // BY pattern designated nothing for this element
 	}
 )
 
@@ -3205,7 +3206,8 @@ func (dsc *dataStoreCommand) sort(sourceKeyName, byPattern, destKeyName string, 
 			for idx, val := range vals {
 				byVal, byValExists := dsc.sortPatternUnlocked(byPattern, val.data)
 				if !byValExists {
-					val.sortByStr = "0"
+					// no weight: score 0, and before every string under ALPHA
+					val.noWeight = true
 					val.sortByFloat = 0
 				} else {
 					val.sortByStr = byVal
@@ -3227,6 +3229,9 @@ func (dsc *dataStoreCommand) sort(sourceKeyName, byPattern, destKeyName string, 
 		// equal sort keys are ordered by the element itself, as in redis
 		less := func(a, b *sortVal) bool {
 			if alpha {
+				if a.noWeight != b.noWeight {
+					return a.noWeight
+				}
 				if a.sortByStr != b.sortByStr {
 					return a.sortByStr < b.sortByStr
 				}
